@@ -1,6 +1,7 @@
 package stream
 
 import (
+	"bytes"
 	"encoding/binary"
 	"fmt"
 	"io"
@@ -15,14 +16,21 @@ func Read[T allowedGenericTypes](reader io.Reader) (result T, err error) {
 }
 
 func ReadBytes(reader io.Reader, length int) ([]byte, error) {
-	readBytes := make([]byte, length)
-
-	nBytes, err := reader.Read(readBytes)
-	if err != nil {
-		return nil, ierrors.Wrap(err, "failed to read serialized bytes")
+	if length < 0 {
+		return nil, ierrors.Errorf("failed to read serialized bytes: invalid length %d", length)
 	}
-	if nBytes != length {
-		return nil, ierrors.Errorf("failed to read serialized bytes: read bytes (%d) != size (%d)", nBytes, length)
+
+	// the length usually comes from an untrusted prefix: grow the buffer with the bytes that actually arrive instead
+	// of allocating it up front, and keep reading until all bytes are there (a reader may return fewer bytes per call)
+	var buffer bytes.Buffer
+	nBytes, err := io.CopyN(&buffer, reader, int64(length))
+	if err != nil {
+		return nil, ierrors.Wrapf(err, "failed to read serialized bytes: read bytes (%d) != size (%d)", nBytes, length)
+	}
+
+	readBytes := buffer.Bytes()
+	if readBytes == nil {
+		readBytes = []byte{}
 	}
 
 	return readBytes, nil
